@@ -251,6 +251,18 @@ package datastore
 //@        dyn(r.Notification[0].Update[0].Value.Value, *sdcpb.TypedValue_JsonVal) != nil && dyn(r.Notification[0].Update[0].Value.Value, *sdcpb.TypedValue_JsonVal).JsonVal == b
 // the only updates that are read and not answered: those without a path and those whose schema path is the root
 //@ pred skippedUpdate(u) = len(u.path) == 0 || addressesRoot(u.path)
+// C14: what the cache returns is filtered element by element against the requested paths (the cache matches byte
+// prefixes and reads key values as patterns: an entry whose name merely starts with a requested one comes back too)
+//@ extern slices.Equal
+//@   pure
+//@   ensures result == (len(s1) == len(s2) && forall(i, 0, len(s1), s1[i] == s2[i]))
+//@ pred isBelow(r, stored) = len(r) <= len(stored) && forall(j, 0, len(r), r[j] == stored[j])
+//@ func atOrBelowRequested
+//@   props C14
+//@   pure
+//@   modifies nothing
+//@   ensures at_or_below_one_of_the_requested_paths [C14]: result == exists(i, 0, len(requested), isBelow(requested[i], stored))
+//@   loop 0 invariant forall(i, 0, $n, !isBelow(requested[i], stored))
 //@ func (*Datastore).handleGetDataUpdatesSTRING
 //@   props C14
 //@   chanevents
@@ -263,22 +275,22 @@ package datastore
 //@   loop 1 invariant ntrace() >= n0
 //@   loop 1 invariant every_answer_is_one_stored_update: forall(i, n0, ntrace(), isev(emitted(i), Send) ==> i > n0 && isev(emitted(i-1), Recv) &&
 //@            evarg(emitted(i), Send, 0) == out && allocated(evarg(emitted(i), Send, 1)) &&
-//@            answerOf(asptr(evarg(emitted(i), Send, 1), *sdcpb.GetDataResponse), asptr(evarg(emitted(i-1), Recv, 1), *cache.Update)))
+//@            answerOf(asptr(evarg(emitted(i), Send, 1), *sdcpb.GetDataResponse), asptr(evarg(emitted(i-1), Recv, 1), *cache.Update)) && atOrBelowRequested(paths, asptr(evarg(emitted(i-1), Recv, 1), *cache.Update).path))
 //@   loop 1 invariant every_stored_update_is_answered: forall(i, n0, ntrace(), isev(emitted(i), Recv) ==>
-//@            (i + 1 < ntrace() && isev(emitted(i+1), Send)) || skippedUpdate(asptr(evarg(emitted(i), Recv, 1), *cache.Update)))
+//@            (i + 1 < ntrace() && isev(emitted(i+1), Send)) || (skippedUpdate(asptr(evarg(emitted(i), Recv, 1), *cache.Update)) || !atOrBelowRequested(paths, asptr(evarg(emitted(i), Recv, 1), *cache.Update).path)))
 //@   loop 0 invariant every_answer_is_one_stored_update_: forall(i, n0, ntrace(), isev(emitted(i), Send) ==> i > n0 && isev(emitted(i-1), Recv) &&
 //@            evarg(emitted(i), Send, 0) == out && allocated(evarg(emitted(i), Send, 1)) &&
-//@            answerOf(asptr(evarg(emitted(i), Send, 1), *sdcpb.GetDataResponse), asptr(evarg(emitted(i-1), Recv, 1), *cache.Update)))
+//@            answerOf(asptr(evarg(emitted(i), Send, 1), *sdcpb.GetDataResponse), asptr(evarg(emitted(i-1), Recv, 1), *cache.Update)) && atOrBelowRequested(paths, asptr(evarg(emitted(i-1), Recv, 1), *cache.Update).path))
 //@   loop 0 invariant every_stored_update_is_answered_: forall(i, n0, ntrace(), isev(emitted(i), Recv) ==>
-//@            (i + 1 < ntrace() && isev(emitted(i+1), Send)) || skippedUpdate(asptr(evarg(emitted(i), Recv, 1), *cache.Update)))
+//@            (i + 1 < ntrace() && isev(emitted(i+1), Send)) || (skippedUpdate(asptr(evarg(emitted(i), Recv, 1), *cache.Update)) || !atOrBelowRequested(paths, asptr(evarg(emitted(i), Recv, 1), *cache.Update).path)))
 //@   loop 0 invariant reads_the_requested_paths_with_the_request_filter: called(ReadCh) ==> callarg(ReadCh, 0, 2) == name && callarg(ReadCh, 0, 4) == paths &&
 //@            callarg(ReadCh, 0, 3) != nil && callarg(ReadCh, 0, 3).Store == $seq[$i] &&
 //@            callarg(ReadCh, 0, 3).Owner == req.GetDatastore().GetOwner() && callarg(ReadCh, 0, 3).Priority == req.GetDatastore().GetPriority()
 //@   ensures success_answers_every_stored_update: result == nil && !called(Err) ==> forall(i, n0, ntrace(), isev(emitted(i), Recv) ==>
-//@            (i + 1 < ntrace() && isev(emitted(i+1), Send)) || skippedUpdate(asptr(evarg(emitted(i), Recv, 1), *cache.Update)))
+//@            (i + 1 < ntrace() && isev(emitted(i+1), Send)) || (skippedUpdate(asptr(evarg(emitted(i), Recv, 1), *cache.Update)) || !atOrBelowRequested(paths, asptr(evarg(emitted(i), Recv, 1), *cache.Update).path)))
 //@   ensures answers_are_stored_updates: forall(i, n0, ntrace(), isev(emitted(i), Send) ==> i > n0 && isev(emitted(i-1), Recv) &&
 //@            evarg(emitted(i), Send, 0) == out &&
-//@            answerOf(asptr(evarg(emitted(i), Send, 1), *sdcpb.GetDataResponse), asptr(evarg(emitted(i-1), Recv, 1), *cache.Update)))
+//@            answerOf(asptr(evarg(emitted(i), Send, 1), *sdcpb.GetDataResponse), asptr(evarg(emitted(i-1), Recv, 1), *cache.Update)) && atOrBelowRequested(paths, asptr(evarg(emitted(i-1), Recv, 1), *cache.Update).path))
 // the PROTO answers carry the stored value in its YANG-typed form: assumed of the converter is only that a successful
 // conversion relates its result to the path and the value it was given
 // (contract of (*utils.Converter).ConvertTypedValueToProto: package utils)
@@ -297,22 +309,22 @@ package datastore
 //@   loop 1 invariant ntrace() >= n0
 //@   loop 1 invariant every_answer_is_one_stored_update: forall(i, n0, ntrace(), isev(emitted(i), Send) ==> i > n0 && isev(emitted(i-1), Recv) &&
 //@            evarg(emitted(i), Send, 0) == out && allocated(evarg(emitted(i), Send, 1)) &&
-//@            protoAnswerOf(asptr(evarg(emitted(i), Send, 1), *sdcpb.GetDataResponse), asptr(evarg(emitted(i-1), Recv, 1), *cache.Update)))
+//@            protoAnswerOf(asptr(evarg(emitted(i), Send, 1), *sdcpb.GetDataResponse), asptr(evarg(emitted(i-1), Recv, 1), *cache.Update)) && atOrBelowRequested(paths, asptr(evarg(emitted(i-1), Recv, 1), *cache.Update).path))
 //@   loop 1 invariant every_stored_update_is_answered: forall(i, n0, ntrace(), isev(emitted(i), Recv) ==>
-//@            (i + 1 < ntrace() && isev(emitted(i+1), Send)) || skippedUpdate(asptr(evarg(emitted(i), Recv, 1), *cache.Update)))
+//@            (i + 1 < ntrace() && isev(emitted(i+1), Send)) || (skippedUpdate(asptr(evarg(emitted(i), Recv, 1), *cache.Update)) || !atOrBelowRequested(paths, asptr(evarg(emitted(i), Recv, 1), *cache.Update).path)))
 //@   loop 0 invariant every_answer_is_one_stored_update_: forall(i, n0, ntrace(), isev(emitted(i), Send) ==> i > n0 && isev(emitted(i-1), Recv) &&
 //@            evarg(emitted(i), Send, 0) == out && allocated(evarg(emitted(i), Send, 1)) &&
-//@            protoAnswerOf(asptr(evarg(emitted(i), Send, 1), *sdcpb.GetDataResponse), asptr(evarg(emitted(i-1), Recv, 1), *cache.Update)))
+//@            protoAnswerOf(asptr(evarg(emitted(i), Send, 1), *sdcpb.GetDataResponse), asptr(evarg(emitted(i-1), Recv, 1), *cache.Update)) && atOrBelowRequested(paths, asptr(evarg(emitted(i-1), Recv, 1), *cache.Update).path))
 //@   loop 0 invariant every_stored_update_is_answered_: forall(i, n0, ntrace(), isev(emitted(i), Recv) ==>
-//@            (i + 1 < ntrace() && isev(emitted(i+1), Send)) || skippedUpdate(asptr(evarg(emitted(i), Recv, 1), *cache.Update)))
+//@            (i + 1 < ntrace() && isev(emitted(i+1), Send)) || (skippedUpdate(asptr(evarg(emitted(i), Recv, 1), *cache.Update)) || !atOrBelowRequested(paths, asptr(evarg(emitted(i), Recv, 1), *cache.Update).path)))
 //@   loop 0 invariant reads_the_requested_paths_with_the_request_filter: called(ReadCh) ==> callarg(ReadCh, 0, 2) == name && callarg(ReadCh, 0, 4) == paths &&
 //@            callarg(ReadCh, 0, 3) != nil && callarg(ReadCh, 0, 3).Store == $seq[$i] &&
 //@            callarg(ReadCh, 0, 3).Owner == req.GetDatastore().GetOwner() && callarg(ReadCh, 0, 3).Priority == req.GetDatastore().GetPriority()
 //@   ensures success_answers_every_stored_update: result == nil && !called(Err) ==> forall(i, n0, ntrace(), isev(emitted(i), Recv) ==>
-//@            (i + 1 < ntrace() && isev(emitted(i+1), Send)) || skippedUpdate(asptr(evarg(emitted(i), Recv, 1), *cache.Update)))
+//@            (i + 1 < ntrace() && isev(emitted(i+1), Send)) || (skippedUpdate(asptr(evarg(emitted(i), Recv, 1), *cache.Update)) || !atOrBelowRequested(paths, asptr(evarg(emitted(i), Recv, 1), *cache.Update).path)))
 //@   ensures answers_are_stored_updates: forall(i, n0, ntrace(), isev(emitted(i), Send) ==> i > n0 && isev(emitted(i-1), Recv) &&
 //@            evarg(emitted(i), Send, 0) == out &&
-//@            protoAnswerOf(asptr(evarg(emitted(i), Send, 1), *sdcpb.GetDataResponse), asptr(evarg(emitted(i-1), Recv, 1), *cache.Update)))
+//@            protoAnswerOf(asptr(evarg(emitted(i), Send, 1), *sdcpb.GetDataResponse), asptr(evarg(emitted(i-1), Recv, 1), *cache.Update)) && atOrBelowRequested(paths, asptr(evarg(emitted(i-1), Recv, 1), *cache.Update).path))
 // the JSON answer is rendered from a tree that holds exactly the stored updates read for the request: every update read
 // (and not skipped) is inserted into that tree, nothing else is, and the one answer sent is the rendering of that tree
 // in the requested flavour. The tree insertion and the rendering themselves are not under contract here.
@@ -328,13 +340,13 @@ package datastore
 //@   loop 0 invariant ntrace() >= n0
 //@   loop 1 invariant ntrace() >= n0
 //@   loop 1 invariant only_stored_updates_enter_the_tree: forall(i, n0, ntrace(), isev(emitted(i), Called) ==> i > n0 && isev(emitted(i-1), Recv) &&
-//@            sameStoredUpdate(asptr(evarg(emitted(i), Called, 1), *cache.Update), asptr(evarg(emitted(i-1), Recv, 1), *cache.Update))) && forall(i, n0, ntrace(), !isev(emitted(i), Send))
+//@            sameStoredUpdate(asptr(evarg(emitted(i), Called, 1), *cache.Update), asptr(evarg(emitted(i-1), Recv, 1), *cache.Update)) && atOrBelowRequested(paths, asptr(evarg(emitted(i-1), Recv, 1), *cache.Update).path)) && forall(i, n0, ntrace(), !isev(emitted(i), Send))
 //@   loop 1 invariant every_stored_update_enters_the_tree: forall(i, n0, ntrace(), isev(emitted(i), Recv) ==>
-//@            (i + 1 < ntrace() && isev(emitted(i+1), Called)) || skippedUpdate(asptr(evarg(emitted(i), Recv, 1), *cache.Update)))
+//@            (i + 1 < ntrace() && isev(emitted(i+1), Called)) || (skippedUpdate(asptr(evarg(emitted(i), Recv, 1), *cache.Update)) || !atOrBelowRequested(paths, asptr(evarg(emitted(i), Recv, 1), *cache.Update).path)))
 //@   loop 0 invariant only_stored_updates_enter_the_tree_: forall(i, n0, ntrace(), isev(emitted(i), Called) ==> i > n0 && isev(emitted(i-1), Recv) &&
-//@            sameStoredUpdate(asptr(evarg(emitted(i), Called, 1), *cache.Update), asptr(evarg(emitted(i-1), Recv, 1), *cache.Update))) && forall(i, n0, ntrace(), !isev(emitted(i), Send))
+//@            sameStoredUpdate(asptr(evarg(emitted(i), Called, 1), *cache.Update), asptr(evarg(emitted(i-1), Recv, 1), *cache.Update)) && atOrBelowRequested(paths, asptr(evarg(emitted(i-1), Recv, 1), *cache.Update).path)) && forall(i, n0, ntrace(), !isev(emitted(i), Send))
 //@   loop 0 invariant every_stored_update_enters_the_tree_: forall(i, n0, ntrace(), isev(emitted(i), Recv) ==>
-//@            (i + 1 < ntrace() && isev(emitted(i+1), Called)) || skippedUpdate(asptr(evarg(emitted(i), Recv, 1), *cache.Update)))
+//@            (i + 1 < ntrace() && isev(emitted(i+1), Called)) || (skippedUpdate(asptr(evarg(emitted(i), Recv, 1), *cache.Update)) || !atOrBelowRequested(paths, asptr(evarg(emitted(i), Recv, 1), *cache.Update).path)))
 //@   loop 0 invariant reads_the_requested_paths_with_the_request_filter: called(ReadCh) ==> callarg(ReadCh, 0, 2) == name && callarg(ReadCh, 0, 4) == paths &&
 //@            callarg(ReadCh, 0, 3) != nil && callarg(ReadCh, 0, 3).Store == $seq[$i] &&
 //@            callarg(ReadCh, 0, 3).Owner == req.GetDatastore().GetOwner() && callarg(ReadCh, 0, 3).Priority == req.GetDatastore().GetPriority()
@@ -348,7 +360,7 @@ package datastore
 //@            jsonAnswer(asptr(evarg(emitted(ntrace()-1), Send, 1), *sdcpb.GetDataResponse), callres(Marshal, 0, 0)) &&
 //@            forall(i, n0, ntrace()-1, !isev(emitted(i), Send))
 //@   ensures success_renders_every_stored_update: result == nil && !called(Err) ==> forall(i, n0, ntrace(), isev(emitted(i), Recv) ==>
-//@            (i + 1 < ntrace() && isev(emitted(i+1), Called)) || skippedUpdate(asptr(evarg(emitted(i), Recv, 1), *cache.Update)))
+//@            (i + 1 < ntrace() && isev(emitted(i+1), Called)) || (skippedUpdate(asptr(evarg(emitted(i), Recv, 1), *cache.Update)) || !atOrBelowRequested(paths, asptr(evarg(emitted(i), Recv, 1), *cache.Update).path)))
 
 // assumed: a derived context is a context
 //@ extern context.WithCancel
